@@ -18,6 +18,13 @@ def Graph.WF (g : Graph E) : Prop :=
 
 instance (g : Graph E) : Decidable g.WF := by unfold Graph.WF; infer_instance
 
+/-- a DataFrame: every column has one cell per index label; no columns means no rows
+    (`DataFrame.to_dict()` of a frame without columns is `{}` and forgets the index) -/
+def IE.WF (ie : IE) : Prop :=
+  (∀ c ∈ ie.cols, c.2.length = ie.index.length) ∧ (ie.cols = [] → ie.index = [])
+
+instance (ie : IE) : Decidable ie.WF := by unfold IE.WF; infer_instance
+
 def Stmt.Good : Stmt E → Prop
   | .assign _ _ => True
   | .ode s => s.g.WF
@@ -25,9 +32,14 @@ def Stmt.Good : Stmt E → Prop
 instance (s : Stmt E) : Decidable s.Good := by cases s <;> unfold Stmt.Good <;> infer_instance
 
 /-- side condition of the model-level round trip and of injectivity of the hash pre-image -/
-def Model.Good (m : Model E M) : Prop := ∀ s ∈ m.statements, s.Good
+def Model.Good (m : Model E M) : Prop :=
+  (∀ s ∈ m.statements, s.Good) ∧ (∀ ie, m.initialIndividualEstimates = some ie → ie.WF)
 
-instance (m : Model E M) : Decidable m.Good := by unfold Model.Good; infer_instance
+instance (m : Model E M) : Decidable m.Good := by
+  unfold Model.Good
+  cases h : m.initialIndividualEstimates with
+  | none => exact decidable_of_iff (∀ s ∈ m.statements, s.Good) (by simp)
+  | some ie => exact decidable_of_iff ((∀ s ∈ m.statements, s.Good) ∧ ie.WF) (by simp)
 
 /-- every binding of `a` is a binding of `b` -/
 def adjSub (a b : List (Node E × E)) : Bool := a.all (fun q => b.lookup q.1 == some q.2)
